@@ -57,7 +57,7 @@ def _rebind(owners, attr, new, old):
     return n
 
 
-def attach(owners, attr, post=None, pre=None, snapshots=()):
+def attach(owners, attr, post=None, pre=None, snapshots=(), optional=False):
     """Wrap <owner>.<attr> (a function or a plain method on a class) with icontract decorators and
     rebind it in every owner through which the code under test reaches it.
     post / pre are *named* condition functions whose parameters match the wrapped function's
@@ -65,6 +65,11 @@ def attach(owners, attr, post=None, pre=None, snapshots=()):
     calling record() themselves; error= is given so that a bug in a condition is not mistaken."""
     if not isinstance(owners, (list, tuple)):
         owners = [owners]
+    if optional and not hasattr(owners[0], attr):
+        # an internal helper (not part of the observed boundary) that a refactoring removed or renamed:
+        # its contract is lost, the boundary oracles are not; recorded so that the evidence shows it
+        COUNTS[f"hook_missing:{attr}"] += 1
+        return None
     old = getattr(owners[0], attr)
     f = old
     if post is not None:
